@@ -184,7 +184,7 @@ def main(tier, replay):
             # keep the smallest script per signature
             if sig not in findings or len(json.dumps(s)) < len(json.dumps(findings[sig][0]["sched"])):
                 findings[sig] = (obj, what)
-        if res["status"] == "ok" and s.get("family") != "join":
+        if res["status"] == "ok" and s.get("family") not in ("join", "stall"):
             try:
                 cfg, terms, readable = cl.build_case(s, res)
                 cases.append((i, cfg, terms))
